@@ -385,6 +385,16 @@ static char *replace_extn(char *tmpl, char *extn) {
   return format("%s%s", filename, extn);
 }
 
+// Replace the file extension of a path, keeping its directory.
+static char *replace_extn_in_place(char *path, char *extn) {
+  char *copy = strdup(path);
+  char *slash = strrchr(copy, '/');
+  char *dot = strrchr(slash ? slash + 1 : copy, '.');
+  if (dot)
+    *dot = '\0';
+  return format("%s%s", copy, extn);
+}
+
 static void cleanup(void) {
   for (int i = 0; i < tmpfiles.len; i++)
     unlink(tmpfiles.data[i]);
@@ -517,8 +527,10 @@ static void print_dependencies(void) {
   char *path;
   if (opt_MF)
     path = opt_MF;
+  else if (opt_MD && opt_o)
+    path = replace_extn_in_place(opt_o, ".d");  // next to the output file
   else if (opt_MD)
-    path = replace_extn(opt_o ? opt_o : base_file, ".d");
+    path = replace_extn(base_file, ".d");
   else if (opt_o)
     path = opt_o;
   else
@@ -527,6 +539,8 @@ static void print_dependencies(void) {
   FILE *out = open_file(path);
   if (opt_MT)
     fprintf(out, "%s:", opt_MT);
+  else if (opt_MD && opt_o)
+    fprintf(out, "%s:", quote_makefile(opt_o));
   else
     fprintf(out, "%s:", quote_makefile(replace_extn(base_file, ".o")));
 
